@@ -16,6 +16,7 @@ package auth
 //@ spec macro isSalt(s) bool = matches(s, `[0-9a-f]{40}`)
 
 //@ func SaltToken property C19
+//@   replay hint "v2/zzzzz-gj3su-000000000000000/zyxwvutsrqponmlkjihgfedcba9876543210zyxw", "v2/zzzzz-gj3su-000000000000000/0123456789abcdef0123456789abcdef01234567", "v2/zzzzz-gj3su-000000000000000/3kg6k6lzmp9kj5cpkcoxie963cmvjahbt2fod9zru30k1jqdmi/extra", "v2/a/b", "3kg6k6lzmp9kj5cpkcoxie963cmvjahbt2fod9zru30k1jqdmi", "zzzzz", "other"
 //@   ensures !wellFormed(token) ==> result == "" && (matches(token, `[0-9a-z]{41,}`) ==> result1 == ErrObsoleteToken) && (!matches(token, `[0-9a-z]{41,}`) ==> result1 == ErrTokenFormat)
 //@   ensures wellFormed(token) && !isSalt(splitpart(token, "/", 2)) ==> result1 == nil && result == "v2/" + splitpart(token, "/", 1) + "/" + hmacsha1hex(splitpart(token, "/", 2), remote)
 //@   ensures wellFormed(token) && isSalt(splitpart(token, "/", 2)) && strings.HasPrefix(splitpart(token, "/", 1), remote) ==> result1 == nil && result == token
